@@ -53,6 +53,10 @@ def diff_fields(a, b):
 
 def workload(tier, rnd):
     cases = common.corpus_cases(tier, want=())
+    if tier == "quick":
+        # a seeded 60 % of the corpus per run (every case is visited within a few seeds); thorough takes all of it
+        r0 = common.rng("c11-corpus")
+        cases = [c for c in cases if r0.random() < 0.6 or c["metadata"]]
     for e in EXTRAS:
         c = dict(e)
         c.update({"silent": False, "want": [], "src": "extra"})
